@@ -22,8 +22,12 @@ def observers_lines(rng, jobs):
     if rng.random() >= 0.33 or max(d for job in jobs for _, d in job) >= 2 ** 24:
         return []
     out = [f"fres {rng.choice(['disjunctive', 'agent_task', 'agent_task_jobs', 'complete_agent_task'])} 1 1"]
-    for k in rng.sample(["is_completed -", "is_scheduled -", "is_ready -", "earliest_start_time -", "duration -"], rng.randint(0, 3)):
-        out.append("fobs " + k)
+    for k in rng.sample(["is_completed -", "is_scheduled -", "is_ready -", "earliest_start_time -", "duration -", "position_in_job -",
+                         "remaining_operations -", "unscheduled -", "unscheduled -"], rng.randint(0, 4)):
+        if ("fobs " + k) not in out:
+            out.append("fobs " + k)
+    if rng.random() < 0.5:
+        rng.shuffle(out)          # the graph updater is not always the first subscriber
     return out
 
 class Check(PropertyCheck):
@@ -124,7 +128,7 @@ class Check(PropertyCheck):
             scheduled_ids.append(base[j] + p)
             n_acc += 1
             burst()
-            if rng.random() < 0.05:
+            if rng.random() < (0.12 if any(l.startswith("fobs") for l in lines[:8]) else 0.05):
                 lines.append("reset")
                 tr.reset()
                 scheduled_ids.clear()
